@@ -16,19 +16,33 @@ open Fit.DecApi
 are called in whatever order: no call ends in a Go panic — every index, slice, division and `UnmarshalValue` of the
 model is guarded by what the code checked before (header size 12/14, `n·3 ≤ 765`, valid base types in live
 definitions, `Size < baseType.Size()` fallback, array mode for undersized fields). -/
-theorem C03_no_panic (o : Opts) (bytes : List Nat) (ops : List Op) (hb : IsBytes bytes) (hops : ∀ op ∈ ops, OpOK op) :
-    ∀ r ∈ run (Api.fresh o bytes) ops, r.1 ≠ .panic :=
-  fun r hr => (run_good ops _ (Api.fresh_inv o bytes hb) hops r hr).1
+theorem C03_no_panic (o : Opts) (bytes : List Nat) (ops : List Op) (hb : IsBytes bytes) (hf : FacOK o.fac)
+    (hops : ∀ op ∈ ops, OpOK op) : ∀ r ∈ run (Api.fresh o bytes) ops, r.1 ≠ .panic :=
+  fun r hr => (run_good ops _ (Api.fresh_inv o bytes hb hf) hops r hr).1
 
 /-- **No hang.** Every function of the model is structurally recursive (Lean's termination checker), and the fuel the
 record loops are started with (remaining stream length + 1) is never exhausted: every iteration of `decodeMessages`,
-of `PeekFileId`'s loop, of `discardMessages` and of `CheckIntegrity` consumes at least one byte. -/
-theorem C03_no_hang (o : Opts) (bytes : List Nat) (ops : List Op) (hb : IsBytes bytes) (hops : ∀ op ∈ ops, OpOK op) :
-    ∀ r ∈ run (Api.fresh o bytes) ops, r.1 ≠ .hang :=
-  fun r hr => (run_good ops _ (Api.fresh_inv o bytes hb) hops r hr).2
+of `PeekFileId`'s loop, of `discardMessages` and of `CheckIntegrity` consumes at least one byte; component expansion
+nests at most 255 deep because every component's destination has a larger field number (`FacOK` — the contract a
+`decoder.Factory` has to meet: with cyclic components the real code recurses without end). -/
+theorem C03_no_hang (o : Opts) (bytes : List Nat) (ops : List Op) (hb : IsBytes bytes) (hf : FacOK o.fac)
+    (hops : ∀ op ∈ ops, OpOK op) : ∀ r ∈ run (Api.fresh o bytes) ops, r.1 ≠ .hang :=
+  fun r hr => (run_good ops _ (Api.fresh_inv o bytes hb hf) hops r hr).2
 
-example : IsBytes [14, 32, 154, 82] ∧ OpOK (.reset {} [1, 2, 255]) ∧ OpOK .decode := by
-  refine ⟨by simp [IsBytes], by simp [OpOK, IsBytes], trivial⟩
+/-- Non-vacuity: byte strings, a reset, and a factory with nested components as in the profile
+(compressed_speed_distance → speed, distance; speed → enhanced_speed), ranked by the field number of the destination chain. -/
+example : IsBytes [14, 32, 154, 82] ∧ OpOK (.reset {} [1, 2, 255]) ∧ OpOK .decode ∧
+    FacOK [⟨20, 8, ⟨true, 13, false, true, false, [⟨6, false, 12⟩, ⟨5, true, 12⟩]⟩⟩, ⟨20, 6, ⟨true, 132, false, false, false, [⟨73, false, 16⟩]⟩⟩] := by
+  refine ⟨by simp [IsBytes], ⟨by simp [IsBytes], ⟨fun _ _ => 0, fun _ _ => (by decide : (0 : Nat) < 256), by intro e he; cases he⟩⟩, trivial, ?_⟩
+  refine ⟨fun _ n => if n = 8 then 2 else if n = 6 then 1 else 0, ?_, ?_⟩
+  · intro m n; simp only; split <;> (try split) <;> decide
+  · intro e he c hc
+    simp only [List.mem_cons, List.mem_nil_iff, or_false] at he
+    rcases he with rfl | rfl
+    · simp only [List.mem_cons, List.mem_nil_iff, or_false] at hc
+      rcases hc with rfl | rfl <;> decide
+    · simp only [List.mem_cons, List.mem_nil_iff, or_false] at hc
+      subst hc; decide
 
 /-- **Sticky error.** Once `d.err` is set, every entry point other than `Reset` returns that error (`Next`: false,
 `CheckIntegrity`: 0 sequences and the error), calls no listener and leaves the decoder's state as it is. -/
@@ -69,20 +83,20 @@ theorem C03_sticky_run (a : Api) (e : Err) (h : a.d.q.err = some e) :
 CRC-16 of its first 12 bytes), followed by records that were all parsed and cover at least the declared data size,
 followed by two CRC bytes — returned as `fit.CRC` and, with checksums on, equal to the CRC-16 of exactly those record
 bytes — and the decoder stands right behind them. Nothing partial is ever returned: any error on the way yields no FIT. -/
-theorem C03_no_fake_success (o : Opts) (bytes : List Nat) (hb : IsBytes bytes) (hlen : bytes.length < 4294967296)
+theorem C03_no_fake_success (o : Opts) (bytes : List Nat) (hb : IsBytes bytes) (hf : FacOK o.fac) (hlen : bytes.length < 4294967296)
     (s' : St) (f : Fit) (evs : List Event) (h : stepDecode (St.fresh o bytes) = (s', .fit f, evs)) :
     ∃ hdr recs c0 c1, bytes = hdr ++ recs ++ [c0, c1] ++ s'.rest ∧ HdrOK o.chk 0 hdr f.hdr ∧
       f.hdr.dataSize ≤ recs.length ∧ f.crc = c0 + 256 * c1 ∧ (o.chk = true → Fit.Crc.write 0 recs = f.crc) :=
-  (decode_fresh_accepted o bytes hb hlen s' f evs h).split
+  (decode_fresh_accepted o bytes hb hf hlen s' f evs h).split
 
 /-- the same from every state at a sequence boundary (per-sequence state and look-ups as new — C07 shows that every
 boundary a history reaches is such a state) -/
-theorem C03_no_fake_success_clean (s : St) (hq : s.q = {}) (hl : s.look = {}) (hb : IsBytes s.rest)
+theorem C03_no_fake_success_clean (s : St) (hq : s.q = {}) (hl : s.look = {}) (hb : IsBytes s.rest) (hf : FacOK s.o.fac)
     (hlen : s.rest.length < 4294967296) (s' : St) (f : Fit) (evs : List Event) (h : stepDecode s = (s', .fit f, evs)) :
     ∃ hdr recs c0 c1, s.rest = hdr ++ recs ++ [c0, c1] ++ s'.rest ∧ HdrOK s.o.chk 0 hdr f.hdr ∧
       f.hdr.dataSize ≤ recs.length ∧ f.crc = c0 + 256 * c1 ∧ (s.o.chk = true → Fit.Crc.write 0 recs = f.crc) := by
   rw [eq_fresh_of_clean s hq hl] at h
-  exact C03_no_fake_success s.o s.rest hb hlen s' f evs h
+  exact C03_no_fake_success s.o s.rest hb hf hlen s' f evs h
 
 /-- Non-vacuity: a one-record sequence is accepted (`P` of C07), its corrupted copy is not, and a decoder that met a
 truncated header is dead and stays so. -/
